@@ -36,7 +36,8 @@ def budget(tier):
 
 
 def shape_cfg(shape):
-    cfg = {"docs": True, "late_access": True}
+    # "outside": some type-bound procedures are bound to procedures of a module that is not part of the project
+    cfg = {"docs": True, "late_access": True, "outside": True}
     if shape == "one-file":
         cfg.update(max_files=1, max_units=2)
     elif shape == "program-only":
